@@ -156,6 +156,62 @@ pub fn slow_join(b: u64, seed: u64, one_way_ms: u64, threaded: bool) -> Value {
         "spec":{"servers":3,"clients":0,"plan":"private","join":"slow_link","dead_bootstrap":0},"panicked":panicked})
 }
 
+/// A joiner whose caller keeps asking: `bootstrapped()` is called again every `step_ms` for the first `calls` steps of the
+/// node's life - while the first lookup is running, when it has just finished, while the ping that confirms the public address
+/// (and re-keys the node, on the public_rekey plan) is on its way, and after.  Every one of the calls returns, with true.
+pub fn ask_join(b: u64, seed: u64, plan: &str, lat_ms: u64, step_ms: u64, calls: usize, threaded: bool) -> Value {
+    let spec = NetSpec { servers: 3, clients: 0, plan: plan.into(), join: "sequential".into(), dead_bootstrap: 0, seed };
+    let mut net = build(&spec);
+    net.sim.cfg.lat_min_ms = lat_ms;
+    net.sim.cfg.lat_max_ms = lat_ms;
+    let ip = node_ip(plan, 9);
+    let mut o = NodeOpts::server(ip, &net.boot);
+    o.threaded = threaded;
+    if plan == "public" {
+        o.public_ip = Some(ip); // the operator states the address: the id is valid for it from the start
+    }
+    let j = net.sim.add_node(o);
+    let id0 = net.sim.snapshot(j).map(|s| s.id.clone()).unwrap_or_default();
+    let mut cs: Vec<crate::calls::Call> = vec![];
+    for _ in 0..calls {
+        if threaded {
+            // the production run loop takes one message per iteration (an idle iteration lasts a poll interval)
+            cs.push(net.sim.call_async(j, "bootstrapped", |d| Box::pin(async move { json!(d.bootstrapped().await) })));
+        } else {
+            // what bootstrapped() does, handled at once: a find_node lookup of the id the node has NOW
+            let mut id = [0u8; 20];
+            if let Some(s) = net.sim.snapshot(j) {
+                id.copy_from_slice(&crate::bencode::unhex(&s.id));
+            }
+            cs.push(net.sim.call_get(j, crate::calls::GetKind::FindNode, id, "find_node(self)"));
+        }
+        net.sim.poke(j);
+        net.sim.run_for(step_ms);
+    }
+    {
+        let mut refs: Vec<&mut crate::calls::Call> = cs.iter_mut().collect();
+        // (the run loop takes one API message per iteration, and an idle iteration lasts a poll interval)
+        net.sim.run_calls(&mut refs[..], 200_000);
+    }
+    if std::env::var("ASK_DUMP").is_ok() {
+        for (i, c) in cs.iter().enumerate() {
+            eprintln!("call {i} start={} done={:?} outcome={:?}", c.start_ns / MS, c.done_ns().map(|x| x / MS), c.outcome().map(|o| format!("{o:?}")));
+        }
+        eprintln!("now={} alive={}", net.sim.now_ns() / MS, net.sim.nodes[j].alive);
+    }
+    let returned = cs.iter().filter(|c| c.done()).count();
+    let truthy = cs.iter().filter(|c| if threaded { matches!(c.outcome(), Some(Outcome::Value(v)) if v == &json!(true)) } else { c.done() }).count();
+    let first_pending = cs.iter().position(|c| !c.done()).map(|i| i as i64).unwrap_or(-1);
+    let snap = net.sim.snapshot(j);
+    let rekeyed = snap.as_ref().map(|s| s.id != id0).unwrap_or(false);
+    let table = snap.as_ref().map(|s| s.routing_table.size).unwrap_or(0);
+    let panicked = net.sim.nodes.iter().any(|n| n.panicked);
+    net.sim.shutdown();
+    json!({"e":"askjoin","b":b,"threaded":threaded,"lat_ms":lat_ms,"step_ms":step_ms,"calls":calls,"returned":returned,"true":truthy,"first_pending":first_pending,
+        "rekeyed":rekeyed,"table":table,
+        "spec":{"servers":3,"clients":0,"plan":plan,"join":"ask_again","dead_bootstrap":0},"panicked":panicked})
+}
+
 pub fn run(args: &Args) -> i32 {
     let seed = args.u64("seed", 1);
     let thorough = args.thorough();
@@ -209,6 +265,17 @@ pub fn run(args: &Args) -> i32 {
                 out.line(&slow_join(b, seed ^ (i as u64 * 17), ow, threaded));
             }
             b += 1;
+        }
+    }
+    // callers that keep asking bootstrapped(), on every plan, over fast and slow links
+    for (i, &(lat, step, calls)) in (if thorough { vec![(1u64, 1u64, 100usize), (2, 1, 100), (5, 1, 150), (5, 2, 100), (20, 3, 120), (50, 7, 100), (120, 11, 100)] } else { vec![(1u64, 1u64, 80usize), (20, 3, 80)] }).iter().enumerate() {
+        for plan in ["private", "public", "public_rekey"] {
+            for threaded in [false, true] {
+                if only.is_none() || only == Some(b) {
+                    out.line(&ask_join(b, seed ^ (i as u64 * 23), plan, lat, step, if threaded { calls / 2 } else { calls }, threaded));
+                }
+                b += 1;
+            }
         }
     }
     out.finish();
